@@ -328,6 +328,32 @@ namespace {
                 p.push_back(op);
             }
             for (auto& op : p) op.v[3] = (int64_t) r.below((uint64_t) nwaves);
+            if (nwaves > 1 && nthreads <= 4)
+            {
+                // every thread of the first generation has pushed (so that the queue keeps a producer record for it
+                // when it exits) and every thread of the second generation opens with a few single pushes (all of
+                // them look for a producer record at the same time, then use theirs side by side)
+                Program q;
+                for (int t = 0; t < nthreads; t++)
+                {
+                    Op a;
+                    a.v[0] = t;
+                    a.v[1] = (int64_t) r.below(2);
+                    a.v[3] = 0;
+                    q.push_back(a);
+                    int const k = (int) r.range(1, 3);
+                    for (int j = 0; j < k; j++)
+                    {
+                        Op b;
+                        b.v[0] = t;
+                        b.v[1] = 0;
+                        b.v[3] = 1;
+                        q.push_back(b);
+                    }
+                }
+                q.insert(q.end(), p.begin(), p.end());
+                p = q;
+            }
             ctx.program = p;
         }
         sim_config sc = draw_sim_config(ctx, 8000, FAULT_STALL);
